@@ -67,14 +67,14 @@ ChainPayloads == { << Leaf("y") >>, XPayload, << Leaf("l") >> }
 Aug(t, pl) == Stmt("augment", t, pl)
 ImpA == [x \in {"a"} |-> "a"]
 ImpAB == [x \in {"a", "b"} |-> x]
-ModB(augs) == Mod("b", ImpA, <<>>, << Stmt("grouping", "bg", << Leaf("bgl") >>) >> \o augs)
-ModC(augs) == Mod("c", ImpAB, <<>>, augs)
+ModB(augs) == Mod("b", ImpA, <<>>, << Stmt("grouping", "bg", << Leaf("bgl") >>), Stmt("container", "bdata", << Leaf("bl") >>) >> \o augs)
+ModC(augs) == Mod("c", ImpAB, <<>>, << Stmt("container", "cdata", << Leaf("cl") >>) >> \o augs)
 
 SAugQuick(dummy) ==
   { Prog(("a" :> BaseA(cc)) @@ ("b" :> ModB(<<Aug(t1, p1)>>)) @@ ("c" :> ModC(<<Aug(t2, p2)>>))) :
       cc \in {"unset", "false"}, t1 \in Targets, p1 \in Payloads("b"), t2 \in ChainTargets, p2 \in ChainPayloads }
 MCOrder == <<"a", "b", "c", "as", "bs">>
-MCOrder2 == <<"a", "as", "b", "bs", "c", "d", "ds", "u", "us", "w", "v">>
+MCOrder2 == <<"a", "as", "b", "bs", "c", "d", "dd", "ds", "u", "us", "w", "v">>
 
 \* thorough: two augments in b (written in either order), one in c, one in b's submodule bs
 ModBS(augs) == Mod("b", ImpA, <<"bs">>, << Stmt("grouping", "bg", << Leaf("bgl") >>) >> \o augs)
@@ -82,6 +82,15 @@ SubBS(augs) == Sub("bs", "b", ImpA, <<>>, augs)
 SAugSub(dummy) ==
   { Prog(("a" :> BaseA("unset")) @@ ("b" :> ModBS(<<Aug(t1, p1)>>)) @@ ("bs" :> SubBS(<<Aug(t2, p2)>>))) :
       t1 \in Targets, p1 \in Payloads("b"), t2 \in ChainTargets, p2 \in ChainPayloads }
+\* a base and ONE augmenting module (the work list shrinks to one entry after the base is dropped)
+ModBData(augs) == Mod("b", ImpA, <<>>, << Stmt("grouping", "bg", << Leaf("bgl") >>), Stmt("container", "bdata", << Leaf("bl") >>) >> \o augs)
+SAugPair(dummy) ==
+  { Prog(("a" :> BaseA(cc)) @@ ("b" :> ModBData(<<Aug(t1, p1)>>))) : cc \in {"unset", "false"}, t1 \in Targets, p1 \in Payloads("b") }
+  \cup { Prog(("a" :> BaseA("unset")) @@ ("b" :> ModBData(<<Aug(t1, p1), Aug(t2, p2)>>))) :
+            t1 \in ChainTargets, p1 \in ChainPayloads, t2 \in ChainTargets, p2 \in ChainPayloads }
+SAugSubQuick(dummy) ==
+  { Prog(("a" :> BaseA("unset")) @@ ("b" :> ModBS(<<Aug(t1, p1)>>)) @@ ("bs" :> SubBS(<<Aug(t2, p2)>>))) :
+      t1 \in {<< Q("a","c") >>, << Q("a","c"), Q("a","ch") >>}, p1 \in {XPayload, << Leaf("y") >>}, t2 \in ChainTargets, p2 \in ChainPayloads }
 SAugTwo(dummy) ==
   { Prog(("a" :> BaseA("unset")) @@ ("b" :> ModB(<<Aug(t1, p1), Aug(t2, p2)>>)) @@ ("c" :> ModC(<<Aug(t3, << Leaf("y") >>)>>))) :
       t1 \in ChainTargets, p1 \in ChainPayloads, t2 \in ChainTargets, p2 \in ChainPayloads, t3 \in ChainTargets }
@@ -160,11 +169,13 @@ Sites == {"top", "list", "input", "notif", "nested", "case"}
 ImpD == [x \in {"d"} |-> "d"]
 ImpU == [x \in {"u"} |-> "u"]
 UsesProg(k, def, s1, s2, mut) ==
-  LET ref == IF def \in {"d", "ds"} THEN Uses("d", "g1") ELSE Uses("", "g1")
+  LET ref == IF def \in {"d", "ds"} THEN Uses("d", "g1") ELSE IF def = "dd" THEN Uses("dd", "g1") ELSE Uses("", "g1")
       \* u has a g2 of its own: names inside g1 must not bind to it when g1 lives in d
       uOwn == << Stmt("grouping", "g2", << Leaf("u2") >>) >>
       uBody == (IF def = "u" THEN << G1(k) >> ELSE <<>>) \o uOwn \o << UseSite(s1, ref) >> \o (IF s2 # s1 THEN << UseSite(s2, ref) >> ELSE <<>>)
+      \* when g1 lives in module dd (prefix dd), module d (prefix d, imported first) holds a decoy of the same name
       dBody == DefD \o (IF def = "d" THEN << G1(k) >> ELSE <<>>)
+                    \o (IF def = "dd" THEN << Stmt("grouping", "g1", << Leaf("decoy") >>) >> ELSE <<>>)
       target == SitePath(s1) \o << Q("u", "k1") >>
       wBody == CASE mut = "none" -> <<>>
                  [] mut = "augment" -> << Aug(target, << Leaf("grafted") >>) >>
@@ -172,17 +183,18 @@ UsesProg(k, def, s1, s2, mut) ==
                  [] mut = "config" -> << Stmt("deviation", target, << Stmt("deviate", "add", << Cfg("false") >>) >>) >>
                  [] mut = "maxelem" -> << Stmt("deviation", target, << Stmt("deviate", "replace", << Stmt("max-elements", 2, <<>>) >>) >>) >>
                  [] mut = "inaction" -> << Aug(target \o << Q("u", "act"), Q("u", "input") >>, << Leaf("grafted") >>) >>
-      u == Mod("u", ImpD, IF def = "us" THEN <<"us">> ELSE <<>>, uBody)
+      u == Mod("u", IF def = "dd" THEN [x \in {"d", "dd"} |-> x] ELSE ImpD, IF def = "us" THEN <<"us">> ELSE <<>>, uBody)
       d == Mod("d", NoImp, IF def = "ds" THEN <<"ds">> ELSE <<>>, dBody)
       w == Mod("w", ImpU, <<>>, wBody)
   IN Prog(("u" :> u) @@ ("d" :> d) @@ ("w" :> w)
           @@ (IF def = "us" THEN ("us" :> Sub("us", "u", ImpD, <<>>, << G1(k) >>)) ELSE << >>)
+          @@ (IF def = "dd" THEN ("dd" :> Mod("dd", NoImp, <<>>, << Stmt("grouping", "g2", << Leaf("dd2") >>), G1(k) >>)) ELSE << >>)
           @@ (IF def = "ds" THEN ("ds" :> Sub("ds", "d", NoImp, <<>>, << G1(k), Stmt("grouping", "g2", << Leaf("ds2") >>) >>)) ELSE << >>))
 SUses(dummy) ==
-  { UsesProg(k, def, s1, s2, mut) : k \in 1..5, def \in {"d", "ds", "u"}, s1 \in Sites, s2 \in Sites,
+  { UsesProg(k, def, s1, s2, mut) : k \in 1..5, def \in {"d", "ds", "u", "dd"}, s1 \in Sites, s2 \in Sites,
                                     mut \in {"none", "augment", "notsupp", "config", "maxelem", "inaction"} }
 SUsesQuick(dummy) ==
-  { UsesProg(k, def, s1, s2, mut) : k \in 1..5, def \in {"d", "ds", "u"}, s1 \in {"top", "nested", "case"}, s2 \in {"top", "list", "notif"},
+  { UsesProg(k, def, s1, s2, mut) : k \in 1..5, def \in {"d", "ds", "u", "dd"}, s1 \in {"top", "nested", "case"}, s2 \in {"top", "list", "notif"},
                                     mut \in {"none", "augment", "notsupp", "config", "maxelem", "inaction"} }
 
 \* ---- S_dev: deviations (C08) -----------------------------------------------------------
@@ -211,7 +223,7 @@ Deviates ==
     Dv("add", << Cfg("false") >>), Dv("add", << S1("default", "z") >>), Dv("add", << S1("mandatory", "true") >>),
     Dv("add", << S1("min-elements", 1) >>), Dv("add", << S1("max-elements", 7) >>), Dv("add", << S1("units", "u") >>),
     Dv("replace", << S1("default", "w") >>), Dv("replace", << S1("type", "int8") >>), Dv("replace", << S1("type", "nosuch") >>),
-    Dv("replace", << Cfg("true") >>), Dv("replace", << S1("max-elements", 3) >>), Dv("replace", << S1("min-elements", 4) >>),
+    Dv("replace", << Cfg("true") >>), Dv("replace", << S1("max-elements", 3) >>), Dv("replace", << S1("min-elements", 1), S1("max-elements", UNB) >>), Dv("replace", << S1("min-elements", 4) >>),
     Dv("replace", << S1("mandatory", "false") >>), Dv("replace", << S1("units", "v") >>),
     Dv("replace", << S1("default", "w"), S1("units", "v"), Cfg("false") >>),
     Dv("delete", << S1("default", "dv") >>), Dv("delete", << S1("default", "other") >>),
@@ -249,6 +261,12 @@ SDev2F(dummy) == { pr \in SDev2(0) :
                     LET dv == pr.mods["v"].body[1]
                         t == CHOOSE x \in DevTargets : x.p = dv.arg IN
                     DevInClaim(t.k, dv.kids[1]) /\ DevInClaim(t.k, dv.kids[2]) /\ dv.kids[1] # dv.kids[2] }
+\* three deviate statements in one deviation where a kind comes back after another kind
+TripleDeviates == { Dv("add", << S1("default", "first") >>), Dv("delete", << S1("default", "first") >>), Dv("add", << S1("default", "second") >>),
+                    Dv("replace", << Cfg("false") >>), Dv("delete", << Cfg("false") >>), Dv("replace", << Cfg("true") >>) }
+SDevTriples(dummy) ==
+  { DevProg(<< Dev(t, << d1, d2, d3 >>) >>, <<>>, FALSE) : t \in {x \in DevTargets : x.p \in {<< Q("a","ln") >>, << Q("a","ld") >>}},
+       d1 \in TripleDeviates, d2 \in TripleDeviates, d3 \in TripleDeviates }
 \* two deviations (same or different targets) in one module; two deviating modules with disjoint attributes
 SDev3(dummy) ==
   { DevProg(<< Dev(t1, << d1 >>), Dev(t2, << d2 >>) >>, <<>>, FALSE) :
@@ -273,7 +291,11 @@ SplitProg(asg, inc) ==
       s2Inc == CASE inc = "rev" -> <<"s1">> [] OTHER -> <<>>
       m == Mod("m", NoImp, mInc, Body(asg, "m") \o << Stmt("container", "c1", << Uses("", "g") >>) >>)
       b == Mod("b", [x \in {"m"} |-> "m"], <<>>, << Aug(<< Q("m","c2") >>, << Leaf("y") >>), Aug(<< Q("m","c1") >>, << Leaf("z") >>) >>)
-  IN Prog(("m" :> m) @@ ("s1" :> Sub("s1", "m", NoImp, s1Inc, Body(asg, "s1"))) @@ ("s2" :> Sub("s2", "m", NoImp, s2Inc, Body(asg, "s2"))) @@ ("b" :> b))
+      \* augments written inside the submodules, aimed at their own module through the belongs-to prefix
+      s1Aug == << Aug(<< Q("m","c2") >>, << Leaf("from_s1") >>) >>
+      s2Aug == << Aug(<< Q("m","c1") >>, << Leaf("from_s2") >>), Aug(<< Q("m","li") >>, << Leaf("li_s2") >>) >>
+  IN Prog(("m" :> m) @@ ("s1" :> Sub("s1", "m", NoImp, s1Inc, Body(asg, "s1") \o s1Aug))
+          @@ ("s2" :> Sub("s2", "m", NoImp, s2Inc, Body(asg, "s2") \o s2Aug)) @@ ("b" :> b))
 SSplit(dummy) == { SplitProg(asg, inc) : asg \in [1..4 -> {"m", "s1", "s2"}], inc \in {"flat", "nested", "both", "rev"} }
 MCOrder3 == <<"m", "s1", "s2", "b">>
 ====
